@@ -963,7 +963,7 @@ class ConfigInformation:
             )
 
         # Check for an associated task (and not loaded)
-        if self.task and not self.loaded:
+        if self.task is not None and not self.loaded:
             if id(self.task) not in taskids:
                 taskids.add(id(self.task))
                 dependencies.add(self.task.__xpm__.dependency())
